@@ -187,6 +187,8 @@ class DrvDomain(Domain):
         self.in_solve = False
         self.levels_built = None
         self.level_ops = None  # level -> set of initialised operators (None: not tracked)
+        self.policy = None  # fixed outcome for non-concrete conditions (no forking) or None
+        self.nofork_pred = None
 
     # ------------------------------------------------------------ state construction
     def make_state(self, bufs=None, fields=None):
@@ -302,6 +304,13 @@ class DrvDomain(Domain):
 
     def choose(self, v, e, fr):
         site = ir.locstr(e)
+        if self.policy is not None:
+            self.choice_log.append((site, v, self.policy, fr.fn["qn"]))
+            return self.policy
+        if self.nofork_pred is not None and self.nofork_pred(v):
+            # condition already known to be a violation (history-dependent): record, do not multiply paths
+            self.choice_log.append((site, v, True, fr.fn["qn"]))
+            return True
         i = self.n_choice
         self.n_choice += 1
         if i < len(self.choices):
@@ -354,8 +363,26 @@ class DrvDomain(Domain):
             return not v.nonnull
         raise AnalysisBroken("unary %s on %r at %s" % (op, v, ir.locstr(e)))
 
+    @staticmethod
+    def pure(e):
+        """expression without side effects (may be evaluated out of order)"""
+        for n in ir.walk(e):
+            k = n.get("k")
+            if k in ("Assign", "Call", "OpCall", "Construct", "New", "Delete", "Throw", "Lambda"):
+                return False
+            if k == "Un" and n.get("op") in ("++", "--"):
+                return False
+        return True
+
     def lazy_and(self, a, e, fr):
-        # a is an abstract bool: decide it (choice), then evaluate b
+        # a is an abstract bool. If the right operand is pure and concretely false the conjunction is false
+        # whatever a is (no case split, and a's provenance is irrelevant to the result).
+        if self.pure(e["b"]):
+            b = self.interp.rvalue(e["b"], fr)
+            if b is False or b == 0 and isinstance(b, (bool, int)):
+                return False
+            if b is True:
+                return self.choose(a, e["a"], fr)
         if self.choose(a, e["a"], fr):
             b = self.interp.rvalue(e["b"], fr)
             return b
@@ -440,6 +467,7 @@ class DrvDomain(Domain):
                 return Handle("vec", size=it.rvalue(args[0], fr))
             if t.startswith("std::optional<double>") and len(args) == 1:
                 return it.rvalue(args[0], fr)
+            t = t[6:] if t.startswith("const ") else t
             if t.startswith("std::filesystem::path") or t.startswith("std::basic_string") or t.startswith("std::string"):
                 return Opaque("path")
             if t.startswith("std::invalid_argument") or t.startswith("std::runtime_error"):
@@ -692,6 +720,9 @@ class DrvDomain(Domain):
             raise AnalysisBroken("anchor vanished: Level::Level with 5 parameters")
         ctor = ctor[0]
         depth = vals[0]
+        if self.levels_built is None:
+            self.event("levels-not-cleared", site, "levels_.emplace_back without a preceding levels_.clear(): levels of an earlier setup() survive")
+            self.levels_built = 0
         if depth != self.levels_built:
             self.event("level-order", site, "level %r constructed at position %r of levels_" % (depth, self.levels_built))
         obj = Obj("Level")
